@@ -14,7 +14,7 @@ TITLE = 'merge-control tags never change the evaluated content of a single docum
 RULE = ('one mapping document (depth <=5, keys int/float/str incl. underscore, all five scalar types incl. awkward strings, block/flow, '
         'quoting styles incl. literal blocks, yaml anchors/aliases) with two independent random placements of !force/!weak/!del/!merge/!new/!unsafe/!metadata ({{..}} and :hex forms) '
         'on any node incl. the root and value-less nodes; non-trivial = a tag on a container that has a container grandchild, or an '
-        'underscore key, or a value-less tagged node, or an alias; distinct = hash of the case')
+        'underscore key, or a value-less tagged node, or an alias, or a final block scalar ending with line breaks; distinct = hash of the case')
 BUDGET = {'quick': (4, 500), 'thorough': (16, 10000)}
 ASSUMPTIONS = ['PyYAML SafeLoader on the tag-erased text defines the plain content',
                'strings containing "{{" and unquoted f-string look-alikes are not generated (documented text-level syntax)',
@@ -39,6 +39,10 @@ def _case(draw):
                 shape = draw(st.integers(0, 2))
                 val = al if shape == 0 else tdoc.sq([al, dict(al)], flow=draw(st.booleans())) if shape == 1 else tdoc.mp([('k', al)], flow=draw(st.booleans()))
                 skel['items'].append([f'zal{i}', val])
+    if draw(st.integers(0, 5)) == 0:
+        # the very last node of the source is a literal block scalar whose value ends with line breaks (clip / keep chomping)
+        skel['flow'] = False
+        skel['items'].append(['zblk', tdoc.sc(draw(st.sampled_from(['last line\n', 'a\nb\n', 'keeps\n\n\n', 'strip'])), q='block')])
     flags = S.flag_set()
     a = draw(S.decorate(skel, flags))
     b = draw(S.decorate(skel, flags))
@@ -83,6 +87,9 @@ def classify(doc):
             labels.add('flow')
         if n['t'] == 'alias':
             labels.add('alias')
+            nontrivial = True
+        if n['t'] == 'sc' and n.get('q') == 'block' and isinstance(n['v'], str) and n['v'].endswith('\n'):
+            labels.add('block-scalar-ending-with-line-breaks')
             nontrivial = True
     return nontrivial, labels
 
